@@ -290,8 +290,9 @@ func pages(input OmegaInput) (output OmegaOutput) {
 		}
 	}
 
-	// otherwise if p < 16 or p + c >= 2^32 / ZP or i in N_p...+c : (u_A)_i = nil
-	if r > 4 || p < 16 || p+c >= (1<<32)/ZP {
+	// otherwise if r > 4 or p < 16 or p + c >= 2^32 / ZP (p and c are page numbers; compared without wrap-around)
+	const pageCount = (1 << 32) / ZP
+	if r > 4 || p < 16 || p >= pageCount || c >= pageCount || p+c >= pageCount {
 		input.VM.Registers[7] = HUH
 		return OmegaOutput{
 			ExitReason: ExitContinue,
@@ -299,41 +300,36 @@ func pages(input OmegaInput) (output OmegaOutput) {
 		}
 	}
 
-	if r > 2 && !isReadable(p, c, input.Addition.IntegratedPVMMap[n].Memory) {
-		input.VM.Registers[7] = HUH
-		return OmegaOutput{
-			ExitReason: ExitContinue,
-			Addition:   input.Addition,
+	innerPages := input.Addition.IntegratedPVMMap[n].Memory.Pages
+
+	// otherwise if r > 2 and some page in N_p...+c is inaccessible: its contents cannot be kept
+	if r > 2 {
+		for i := uint32(p); i < uint32(p+c); i++ {
+			if page, exists := innerPages[i]; !exists || page.Access == MemoryInaccessible {
+				input.VM.Registers[7] = HUH
+				return OmegaOutput{
+					ExitReason: ExitContinue,
+					Addition:   input.Addition,
+				}
+			}
 		}
 	}
 
 	// otherwise : ok
-	// u_v
-	if r >= 3 {
-		for i := uint32(p); i < uint32(p+c); i++ {
-			input.Addition.IntegratedPVMMap[n].Memory.Pages[i] = &Page{
-				Value:  make([]byte, ZP),
-				Access: MemoryInaccessible,
-			}
+	for i := uint32(p); i < uint32(p+c); i++ {
+		// u_v: r < 3 zeroes the pages, r >= 3 keeps their contents
+		value := make([]byte, ZP)
+		if r >= 3 {
+			copy(value, innerPages[i].Value)
 		}
-	}
-
-	// u_a
-	if r == 1 || r == 3 {
-		for i := uint32(p); i < uint32(p+c); i++ {
-			input.Addition.IntegratedPVMMap[n].Memory.Pages[i] = &Page{
-				Value:  make([]byte, ZP),
-				Access: MemoryReadOnly,
-			}
-		}
-	}
-
-	if r == 2 || r == 4 {
-		for i := uint32(p); i < uint32(p+c); i++ {
-			input.Addition.IntegratedPVMMap[n].Memory.Pages[i] = &Page{
-				Value:  make([]byte, ZP),
-				Access: MemoryReadWrite,
-			}
+		// u_a: 0 -> inaccessible, 1 and 3 -> read-only, 2 and 4 -> read-write
+		switch r {
+		case 0:
+			delete(innerPages, i)
+		case 1, 3:
+			innerPages[i] = &Page{Value: value, Access: MemoryReadOnly}
+		default:
+			innerPages[i] = &Page{Value: value, Access: MemoryReadWrite}
 		}
 	}
 
